@@ -1,0 +1,73 @@
+//go:build verif
+
+/*
+ * Verification export (value-log write path, property C06). Add-only; compiled only with
+ * `-tags verif`.
+ */
+
+package badger
+
+import "github.com/dgraph-io/badger/v4/y"
+
+// VerifVptrEntry is one memtable entry with the value pointer it stores (if any).
+type VerifVptrEntry struct {
+	Key              []byte // user key
+	Version          uint64
+	Meta             byte
+	InVlog           bool
+	Fid, Len, Offset uint32
+}
+
+// VerifMemPointers lists the entries of the immutable memtables (oldest first) and the active
+// memtable with their value pointers.
+func (db *DB) VerifMemPointers() []VerifVptrEntry {
+	db.lock.RLock()
+	defer db.lock.RUnlock()
+	var out []VerifVptrEntry
+	dump := func(m *memTable) {
+		it := m.sl.NewUniIterator(false)
+		for it.Rewind(); it.Valid(); it.Next() {
+			vs := it.Value()
+			e := VerifVptrEntry{Key: y.Copy(y.ParseKey(it.Key())), Version: y.ParseTs(it.Key()), Meta: vs.Meta}
+			if vs.Meta&bitValuePointer > 0 {
+				var vp valuePointer
+				vp.Decode(vs.Value)
+				e.InVlog, e.Fid, e.Len, e.Offset = true, vp.Fid, vp.Len, vp.Offset
+			}
+			out = append(out, e)
+		}
+		it.Close()
+	}
+	for _, m := range db.imm {
+		dump(m)
+	}
+	if db.mt != nil {
+		dump(db.mt)
+	}
+	return out
+}
+
+// VerifRawEntry builds an entry with an internal key (user key + version) and the given meta.
+func VerifRawEntry(key []byte, version uint64, val []byte, meta, userMeta byte, expiresAt uint64) *Entry {
+	return &Entry{Key: y.KeyWithTs(key, version), Value: val, meta: meta, UserMeta: userMeta, ExpiresAt: expiresAt}
+}
+
+// VerifSendEntries sends one write request with exactly these entries, in this order, through
+// the normal writer (sendToWriteCh); wait returns the request's result.
+func (db *DB) VerifSendEntries(es []*Entry) (wait func() error, err error) {
+	req, err := db.sendToWriteCh(es)
+	if err != nil {
+		return nil, err
+	}
+	return req.Wait, nil
+}
+
+// VerifWriteChLen is the number of requests queued for doWrites.
+func (db *DB) VerifWriteChLen() int { return len(db.writeCh) }
+
+// VerifVlogHead reports maxFid, the write offset and numEntriesWritten of the value log.
+func (db *DB) VerifVlogHead() (maxFid, offset, entries uint32) {
+	db.vlog.filesLock.RLock()
+	defer db.vlog.filesLock.RUnlock()
+	return db.vlog.maxFid, db.vlog.woffset(), db.vlog.numEntriesWritten
+}
